@@ -28,7 +28,7 @@ LEVEL = "exploration"
 RULE = (
     "pool (~50 payloads, fixed per seed): the 28 fixture messages of all supported lists in frame and body form, generated lists of each vendor in both forms, Kaifa list-1 messages whose register "
     "holds '(' / ')' octets, P1 blocks, junk (random bytes, truncated and mutated genuine messages, ASCII fragments, well-formed lists of undocumented length, frames with other LLC octets, unknown OBIS, null / FF date-times). histories: ALL sequences of length <= 2 (quick) / <= 3 (thorough) over the pool, "
-    "plus random histories up to length 30; each history runs on one AutoDecoder. evaluations = AutoDecoder calls checked; distinct non-trivial = distinct histories (enumerated ones by construction) "
+    "plus random histories up to length 30 and histories with success streaks followed by runs of up to 70 rejected payloads; each history runs on one AutoDecoder. evaluations = AutoDecoder calls checked; distinct non-trivial = distinct histories (enumerated ones by construction) "
     "containing >= 1 payload that some decoder accepts."
 )
 ASSUMPTIONS = [
@@ -177,6 +177,36 @@ class Oracle:
                 same_meter = False
         return nontrivial
 
+    def twin(self, h1: tuple, h2: tuple, rng) -> None:
+        """Two AutoDecoder objects used alternately must each behave as when used alone (no state shared between instances)."""
+        def solo(h):
+            d = self.AutoDecoder()
+            out = []
+            for pi in h:
+                res, exc, _ = self.budget.call(lambda: d.decode_message_payload(self.pool[pi][3]), 50_000 + 2_000 * len(self.pool[pi][3]))
+                out.append((res, type(exc).__name__ if exc else None, d.previous_success_decoder))
+            return out
+
+        want = [solo(h1), solo(h2)]
+        decs = [self.AutoDecoder(), self.AutoDecoder()]
+        hs = [h1, h2]
+        got = [[], []]
+        idx = [0, 0]
+        while idx[0] < len(h1) or idx[1] < len(h2):
+            k = rng.randrange(2)
+            if idx[k] >= len(hs[k]):
+                k = 1 - k
+            data = self.pool[hs[k][idx[k]]][3]
+            res, exc, _ = self.budget.call(lambda: decs[k].decode_message_payload(data), 50_000 + 2_000 * len(data))
+            got[k].append((res, type(exc).__name__ if exc else None, decs[k].previous_success_decoder))
+            idx[k] += 1
+        self.ctx.count("twin_executions")
+        for k in range(2):
+            if got[k] != want[k]:
+                step = next(i for i, (g, w) in enumerate(zip(got[k], want[k])) if g != w)
+                self.ctx.violation("C12:instances-share-state", f"decoder {k}: step {step} ({self.pool[hs[k][step]][0]}) differs when another AutoDecoder object is used in between: {got[k][step][1:]} vs alone {want[k][step][1:]}",
+                                   {"history": [self.pool[i][0] for i in hs[k]], "payloads": [self.pool[i][3] for i in hs[k]], "step": step, "api": "payload"})
+
     def check_message_equivalence(self, pi: int) -> None:
         """decode_message(HDLC frame / DlmsMessage) == decode_message_payload(payload) on twin decoders."""
         from han.common import DlmsMessage
@@ -238,13 +268,23 @@ def run(shard, ctx):
             for i in range(shard["n"]):
                 length = rng.randint(4, 30)
                 style = rng.random()
-                if style < 0.3:  # same meter, same form, with junk in between
+                junk_items = [k for k, it in enumerate(o.pool) if not o.accept[k]]
+                if style < 0.15 and junk_items:
+                    # a streak of successes, a long run of payloads nobody accepts (up to 70), then genuine messages again
+                    fam_items = [k for k, it in enumerate(o.pool) if it[1] is not None]
+                    k0 = rng.choice(fam_items)
+                    hist = tuple([k0] * rng.choice((1, 3, 5, 6, 9)) + [rng.choice(junk_items) for _ in range(rng.choice((1, 8, 31, 32, 33, 40, 70)))]
+                                 + [rng.choice(fam_items), k0, rng.choice(fam_items)])
+                    ctx.count("long_histories_with_junk_runs")
+                elif style < 0.3:  # same meter, same form, with junk in between
                     fam_items = [k for k, it in enumerate(o.pool) if it[1] is not None]
                     k0 = rng.choice(fam_items)
                     same = [k for k in fam_items if o.pool[k][1:3] == o.pool[k0][1:3]]
                     hist = tuple(rng.choice(same) for _ in range(length))
                 else:
                     hist = tuple(rng.randrange(n) for _ in range(length))
+                if i % 5 == 0:
+                    o.twin(hist[:8], tuple(rng.randrange(n) for _ in range(rng.randint(2, 8))), rng)
                 nt = o.run_history(hist, "payload" if rng.random() < 0.8 else "message")
                 ctx.case(repr(hist), nt, length)
                 ctx.count("random_histories")
